@@ -7,6 +7,7 @@ def dispatchLua (line : String) : String :=
   | "calls" :: args => handleCalls args
   | "run" :: args => handleRun args
   | "exp" :: args => handleExp args
+  | "regs" :: args => handleRegs args
   | _ => "bad-op"
 
 partial def loopLua (h : IO.FS.Stream) (out : IO.FS.Stream) : IO Unit := do
